@@ -16,10 +16,11 @@ package main
 //	         over the digest (it verifies iff xsg names exactly the keys xk)
 //	in    the owners of the token inputs: each spends its next unspent genesis output (everything is paid to A7)
 //	act   the contract request the transaction carries, pre-executed on the node the way a client does
-//	      (Chain.PreExec): T none, K a harmless call ($xvkv.run), S:C<n> $acl.SetAccountAcl of account n,
-//	      N:C<n> $acl.NewAccount, M:c<j> $acl.SetMethodAcl of contract<j>.run
+//	      (Chain.PreExec): T none, K a harmless call ($xvkv.run), G a call of the guarded method $xvgate.guarded,
+//	      S:C<n> $acl.SetAccountAcl of account n, N:C<n> $acl.NewAccount, M:c<j> $acl.SetMethodAcl of contract<j>.run
 //	ch    the chain: p = accounts C0..C3 exist, account n is controlled by address An (threshold 1); C4, C5 own tokens
-//	      but have no rule; contract1 / contract2 are owned by C1 / C2, contract3 has no owner entry.
+//	      but have no rule; contract1 / contract2 are owned by C1 / C2, contract3 has no owner entry; the method
+//	      $xvgate.guarded has the rule {A3: 1, C2: 1}, threshold 1.
 //	      m = the same, and the operator has marked the transaction that created all the outputs
 //	      (Ledger.UpdateBlockChainData: "blocked" transaction)
 //
@@ -43,6 +44,7 @@ import (
 	"github.com/xuperchain/xupercore/bcs/ledger/xledger/state/utxo/txhash"
 	pb "github.com/xuperchain/xupercore/bcs/ledger/xledger/xldgpb"
 	xctx "github.com/xuperchain/xupercore/kernel/common/xcontext"
+	"github.com/xuperchain/xupercore/kernel/contract"
 	"github.com/xuperchain/xupercore/kernel/engines/xuperos"
 	aclu "github.com/xuperchain/xupercore/kernel/permission/acl/utils"
 	"github.com/xuperchain/xupercore/protos"
@@ -58,6 +60,7 @@ const (
 	sxRuled    = 4
 	sxUtxos    = 4
 	sxContract = "contract"
+	sxGate     = "$xvgate"
 )
 
 // ---------------------------------------------------------------- the line
@@ -165,7 +168,7 @@ func parseSx(line string) (l sxLine, ok bool) {
 		}
 	}
 	switch {
-	case l.act == "T" || l.act == "K":
+	case l.act == "T" || l.act == "K" || l.act == "G":
 	case len(l.act) == 4 && (l.act[:2] == "S:" || l.act[:2] == "N:") && l.act[2] == 'C' && sxNameOK(l.act[2:], true):
 		exists := int(l.act[3]-'0') < sxRuled
 		if exists != (l.act[0] == 'S') {
@@ -228,6 +231,12 @@ func getSxImage(ch string) *sxImage {
 	if err != nil {
 		xvlib.Die("sx: new node: %v", err)
 	}
+	n.CM.GetKernRegistry().RegisterKernMethod(sxGate, "guarded", func(ctx contract.KContext) (*contract.Response, error) {
+		if err := ctx.Put("xvgate", []byte("k"), []byte("1")); err != nil {
+			return nil, err
+		}
+		return &contract.Response{Status: 200, Body: []byte("ok")}, nil
+	})
 	im := &sxImage{n: n, utxo: map[string][]chainlib.Utxo{}}
 	rb, err := n.L.QueryBlock(n.L.GetMeta().RootBlockid)
 	must(err)
@@ -253,6 +262,9 @@ func getSxImage(ch string) *sxImage {
 	for c := 1; c <= 2; c++ {
 		put(aclu.GetContract2AccountBucket(), sxContract+strconv.Itoa(c), []byte(acctName(c)))
 	}
+	gate, _ := json.Marshal(&protos.Acl{Pm: &protos.PermissionModel{Rule: protos.PermissionRule_SIGN_THRESHOLD, AcceptValue: 1},
+		AksWeight: map[string]float64{acct(3).Address: 1, acctName(2): 1}})
+	put(aclu.GetContractBucket(), aclu.MakeContractMethodKey(sxGate, "guarded"), gate)
 	setup.Txid, err = txhash.MakeTransactionID(setup)
 	must(err)
 	if err := n.S.DoTx(setup); err != nil {
@@ -318,6 +330,8 @@ func buildSx(im *sxImage, ch *xuperos.Chain, l sxLine) (*pb.Transaction, error) 
 	switch l.act[0] {
 	case 'K':
 		req = &protos.InvokeRequest{ModuleName: "xkernel", ContractName: chainlib.KVContract, MethodName: "run", Args: map[string][]byte{"prog": []byte("put sx 1")}}
+	case 'G':
+		req = &protos.InvokeRequest{ModuleName: "xkernel", ContractName: sxGate, MethodName: "guarded"}
 	case 'S':
 		req = &protos.InvokeRequest{ModuleName: "xkernel", ContractName: "$acl", MethodName: "SetAccountAcl",
 			Args: map[string][]byte{"account_name": []byte(sxReal(l.act[2:])), "acl": sxRule(6)}}
@@ -456,6 +470,10 @@ func sxVerdict(l sxLine) string {
 		}
 	}
 	switch l.act[0] {
+	case 'G':
+		if !signed[3] && !signed[2] {
+			return "method-rule-not-satisfied"
+		}
 	case 'S':
 		if !controls(l.act[2:]) {
 			return "acl-change-not-by-owner:account"
@@ -529,6 +547,15 @@ func sxCanonical(l sxLine) bool {
 		}
 	}
 	switch l.act[0] {
+	case 'G':
+		return l.init == "A3" || (listed["A3"] && func() bool {
+			for _, u := range l.auth {
+				if u == "A3" {
+					return true
+				}
+			}
+			return false
+		}()) || need("C2")
 	case 'S':
 		return need(l.act[2:])
 	case 'M':
@@ -547,6 +574,7 @@ func judgeSx(line string, l sxLine, ok bool, verr error, admitted bool) {
 		"owner-not-signed:address":                           "it spends an output of an address that did not sign",
 		"owner-not-signed:account":                           "it spends an output of an account whose rule the keys that signed do not satisfy",
 		"owner-account-without-rule":                         "it spends an output of an account name that has no rule",
+		"method-rule-not-satisfied":                          "it calls a method whose rule the keys that signed do not satisfy",
 		"acl-change-not-by-owner:account":                    "it invokes a change of the rule of an account whose rule the keys that signed do not satisfy",
 		"acl-change-not-by-owner:method":                     "it invokes a change of a method rule of a contract whose owning account's rule the keys that signed do not satisfy",
 		"acl-change-not-by-owner:method-without-owner-entry": "it invokes a change of a method rule of a contract that has no owning account",
@@ -681,9 +709,9 @@ func sxSigned(form, init string, auth []string, iv int) (l sxLine, ok bool) {
 
 func genSx(thorough bool, rng *xvlib.Rng, run func(string, bool)) {
 	inits := []string{"A0", "A1", "C1", "C2", "C4"}
-	auths := [][]string{nil, {"A2"}, {"C1|A1"}, {"A2", "C1|A1"}, {"C2|A2"}, {"C1|A2"}, {"C1|A1", "C2|A2"}, {"A1"}, {"C4|A2"}, {"A5", "A6"}}
+	auths := [][]string{nil, {"A2"}, {"C1|A1"}, {"A2", "C1|A1"}, {"C2|A2"}, {"C1|A2"}, {"C1|A1", "C2|A2"}, {"A1"}, {"C4|A2"}, {"A5", "A6"}, {"A3"}, {"C3|A3"}}
 	ins := [][]string{nil, {"A0"}, {"A2"}, {"A5"}, {"C1"}, {"C2"}, {"C4"}, {"C1", "A0"}, {"A1", "C2"}, {"C1", "C1"}}
-	acts := []string{"T", "K", "S:C1", "S:C2", "N:C5", "M:c1", "M:c2", "M:c3"}
+	acts := []string{"T", "K", "S:C1", "S:C2", "N:C5", "M:c1", "M:c2", "M:c3", "G"}
 	var signed []sxLine
 	for _, form := range []string{"c", "x"} {
 		for _, init := range inits {
